@@ -1177,6 +1177,13 @@ func cmdQuery(args []string) error {
 				q.intent = ""
 				q.hist["sums-at-the-ends-of-int64"]++
 			}
+			if (q.mode == "having" || q.mode == "limit") && k < 2 && sc%3 == 0 {
+				// HAVING keeps a share of the rows and LIMIT cuts what is kept: the order of the two stages shows
+				text = fmt.Sprintf("select ?s, ?o from %s where { ?s ?p ?o }%s having (?o > \"%d\"^^type:int64) or (?o < \"%d\"^^type:int64) limit \"%d\"^^type:int64;",
+					strings.Join(names[:ng], ", "), []string{" order by ?o asc", " order by ?o desc, ?s asc", ""}[r.intn(3)], r.intn(3), -1-r.intn(2), 1+r.intn(3))
+				q.intent = ""
+				q.hist["having-then-limit"]++
+			}
 			// overlap only matters among the graphs actually listed
 			ov := false
 			if overlap {
